@@ -152,6 +152,41 @@ def corpus_problems():
     return out
 
 
+def metric_corpus():
+    """Hand-written problems whose metric value depends on WHERE it is evaluated (pre-state vs. successor, final state)."""
+    from fractions import Fraction
+    from unified_planning.environment import Environment
+    from unified_planning.model import Fluent, Problem, InstantaneousAction
+    from unified_planning.model.metrics import (MinimizeActionCosts, MinimizeExpressionOnFinalState, Oversubscription,
+                                                MinimizeSequentialPlanLength)
+    out = []
+    for kind in ("costs", "final", "oversub", "length"):
+        env = Environment()
+        tm, em = env.type_manager, env.expression_manager
+        p = Problem("metric-" + kind, env)
+        c = Fluent("c", tm.IntType(0, 6), environment=env)
+        d = Fluent("d", tm.BoolType(), environment=env)
+        p.add_fluent(c, default_initial_value=1)
+        p.add_fluent(d, default_initial_value=False)
+        inc = InstantaneousAction("inc", k=tm.IntType(1, 2), _env=env)
+        inc.add_increase_effect(c, inc.parameter("k"))
+        flip = InstantaneousAction("flip", _env=env)
+        flip.add_effect(d, em.Not(d))
+        p.add_action(inc)
+        p.add_action(flip)
+        p.add_goal(em.LE(1, c))
+        if kind == "costs":
+            p.add_quality_metric(MinimizeActionCosts({inc: em.Plus(c, inc.parameter("k")), flip: em.Times(c, Fraction(1, 2))}, environment=env))
+        elif kind == "final":
+            p.add_quality_metric(MinimizeExpressionOnFinalState(em.Minus(em.Times(c, 2), 1), environment=env))
+        elif kind == "oversub":
+            p.add_quality_metric(Oversubscription({em.LE(3, c): 5, d: Fraction(-3, 2), em.And(d, em.LE(c, 2)): 2}, environment=env))
+        else:
+            p.add_quality_metric(MinimizeSequentialPlanLength(environment=env))
+        out.append(HandProblem(p, "metric-" + kind))
+    return out
+
+
 def explore_problem(idx, rng, depth, max_states, max_inst_per_state, knobs, gen=None):
     import unified_planning as up
     from unified_planning.engines.sequential_simulator import UPSequentialSimulator
